@@ -33,6 +33,13 @@ HISTORY = {
     "C14-callee-params-in-const-scope": "missed at first: no program had a constant, a parameter and a local of the same name in different functions; name-clash contexts added to family X",
     "C16-single-empty-array-param-guard": "missed by C16 at first (C05 and C12 caught it): the zero-sized and const-sized single-array programs are now compiled, validated and evaluated by C16 as well",
     "C17-struct-literal-dup-plus-missing": "missed at first: duplicate and missing fields were only seeded separately; the combined edit (right count, one name twice) added",
+    "C01-unsuffixed-range-from-zero-on-signed": "missed by C01 at first (C08 caught it): family E only had suffixed literal patterns; a three-arm match with unsuffixed ranges from 0 added",
+    "C02-assign-outer-bounds-check-late": "missed at first: no assignment went through two index accessors with a failing inner index; nested-index-assignment program added to family A",
+    "C03-cast-chain-unsigned-to-signed-dropped": "missed by C03 at first (C01 caught it): only single casts were swept; cast chains x as A as B over all intermediate and final types added",
+    "C05-arrayconst-elem-type-unresolved": "missed by C05 at first (C12 caught it): no const-sized array had struct / enum elements; three such programs added to the C05 shape list",
+    "C06-join-loop-assigned-vars-hashmap": "missed at first: every for-join subject assigned one variable; subjects with several assigned variables in for-join bodies, branches and arms added",
+    "C07-bare-cr-counts-as-line": "missed at first: carriage returns only occurred as single bytes; CR-only / CRLF / CR CR LF variants of corpus programs, whole and cut at every token boundary, added",
+    "C09-signed-range-check-wrapping-cast": "missed at first: no decimal above i64::MAX was ever given for a signed type; 2^64-1, 2^63 and the two's complement spelling of negative values added",
     "C17-match-arms-share-scope": "missed at first: UseAfterScope only covered loop variables and block locals; replaced by a reference model of lexical scoping (every use x every name bound elsewhere but not in scope)",
 }
 rows = []
